@@ -11,6 +11,10 @@ Layers (DESIGN.md §8 C14; model coq/Model/Resume.v, theorems coq/Props/C14.v):
                     operator process kept across the events of several objects; only application.apply is
                     replaced (the patch is applied to the harness's server-side object instead of an API call)
   D:resume_trace    the same histories as label lists through rs_exec (restarts = fresh memories)
+  D:resume_cycle    the composed model (Model/ResumeCycle.v: flags + the C02 pipeline of Model/Progress.v on the concrete
+                    progress records): every step of every history, lifecycles all_at_once / one_by_one / asap — memories,
+                    cause, selection, invoked (id, retry), fully_handled_once and the records on the object after the patch
+                    (resume_step / resume_trace, whose model abstracts the execution, only for all_at_once histories)
   monitors          the property text on what the real code did in those histories (the harness's own reading
                     of the server-side objects): at most one successful run per (process, object, resume
                     handler); none for objects first seen by a watch event, for never-handled objects, for
@@ -29,6 +33,7 @@ from typing import Any
 from kv import canon, clock, coqio as cq, framework as fw, vloop
 
 HEADER = fw.STD_HEADER + 'From KV Require Import Base.Dicts Model.Resume.\n'
+HEADER_RC = fw.STD_HEADER + 'From KV Require Import Base.Dicts Model.Resume Model.Progress Model.ResumeCycle.\n'
 
 FIN = 'kopf.zalando.org/KopfFinalizerMarker'
 CEV = {None: 'EListed', 'ADDED': 'EAdded', 'MODIFIED': 'EModified', 'DELETED': 'EDeleted'}
@@ -78,6 +83,58 @@ def cobs(o: dict) -> str:
     return (f'{{| ob_initial0 := {cq.cbool(o["initial0"])}; ob_reason := {CR[o["reason"]]}; ob_initial := {cq.cbool(o["initial"])}; '
             f'ob_selected := {cq.clist(cq.cnat(x) for x in o["selected"])}; ob_invoked := {inv}; ob_done := {cq.cbool(o["done"])}; '
             f'ob_skip := {cq.cbool(o["skip"])}; ob_handled_after := {cq.cbool(o["handled_after"])} |}}')
+
+
+# ---- records and outcomes of Model/Progress.v (conventions of C02: times are integer microseconds since clock.EPOCH)
+US = datetime.timedelta(microseconds=1)
+REC_KEYS = ('started', 'stopped', 'delayed', 'purpose', 'retries', 'success', 'failure', 'message', 'subrefs')
+CLC = {'all_at_once': 'LAll', 'one_by_one': 'LOne', 'asap': 'LAsap'}
+COUT_PG = {'ok': '(mkPgOut true None None None nil)',
+           'perm': '(mkPgOut true (Some "scripted"%string) None None nil)',
+           'tmp': f'(mkPgOut false (Some "scripted"%string) (Some ({TMP_DELAY * 1000000})%Z) None nil)'}
+
+
+def from_iso(s: str) -> int:
+    d = datetime.datetime.fromisoformat(s)
+    if d.tzinfo is None:
+        d = d.replace(tzinfo=datetime.timezone.utc)
+    delta = d - clock.EPOCH
+    n = delta // US
+    if n * US != delta:
+        raise cq.Unencodable(s)
+    return n
+
+
+def model_record(raw: Any) -> dict | None:
+    if raw is None:
+        return None
+    out: dict[str, Any] = {}
+    for k, v in dict(raw).items():
+        if v is None:
+            continue
+        if k not in REC_KEYS:
+            raise cq.Unencodable(f'unknown record field {k}')
+        out[k] = from_iso(v) if k in ('started', 'stopped', 'delayed') else (list(v) if k == 'subrefs' else v)
+    return out
+
+
+def coz(x: Any) -> str:
+    return cq.copt(None if x is None else cq.cZ(x))
+
+
+def costr(x: Any) -> str:
+    return cq.copt(None if x is None else cq.cstr(x))
+
+
+def c_srec(m: dict) -> str:
+    subs = m.get('subrefs')
+    return (f"(mkPgRec {coz(m.get('started'))} {coz(m.get('stopped'))} {coz(m.get('delayed'))} {costr(m.get('purpose'))} "
+            f"{coz(m.get('retries'))} {cob(m.get('success'))} {cob(m.get('failure'))} {costr(m.get('message'))} "
+            f"{cq.copt(None if subs is None else cq.clist(cq.cstr(x) for x in subs))})")
+
+
+def c_osrec(m: dict | None) -> str:
+    return 'None' if m is None else f'(Some {c_srec(m)})'
 
 
 def chdecl(ix: int, hid: int, fn: int, reason: Any, initial: Any, deleted: Any) -> str:
@@ -570,6 +627,9 @@ def run_history(ctx: fw.Ctx, env: Env, D: dict[str, list[fw.Case]], spec: dict, 
     """spec = {decls, uids, init: server-side objects or None, pending0: events in flight at the start or None,
     actions: the environment's actions or None (generated, and recorded so that a failing history can be replayed)}."""
     decls, uids, script = spec['decls'], spec['uids'], spec['actions']
+    lifecycle = spec.get('lifecycle') or (r.choice(['all_at_once', 'all_at_once', 'one_by_one', 'asap']) if script is None
+                                          else 'all_at_once')
+    ctx.count('fn_lifecycle', lifecycle)
     R = Registry(env, decls)
     W = World(env, R, uids, r)
     env.world = W
@@ -593,7 +653,8 @@ def run_history(ctx: fw.Ctx, env: Env, D: dict[str, list[fw.Case]], spec: dict, 
         pending: list[tuple[Any, str]] = [(p[0], p[1]) for p in spec['pending0']]
     else:
         pending = [(None if r.random() < 0.75 else 'ADDED', u) for u in uids]
-    replayable = {'decls': decls, 'uids': uids, 'init': init, 'pending0': [list(p) for p in pending], 'actions': []}
+    replayable = {'decls': decls, 'uids': uids, 'init': init, 'pending0': [list(p) for p in pending], 'actions': [],
+                  'lifecycle': lifecycle}
     labels: list[str] = []          # Coq labels of the whole history
     trace_obs: list[str] = []
     trace_data: list[dict] = []
@@ -705,6 +766,8 @@ def run_history(ctx: fw.Ctx, env: Env, D: dict[str, list[fw.Case]], spec: dict, 
                 matching = [ix for ix, d in enumerate(decls) if not d['sel'] or raw['metadata'].get('labels', {}).get('sel') == 'on']
                 outs = [(ix, R.next_outcome(ix)) for ix in range(len(decls))]
                 handled_before = W.handled_before(raw)
+                recs_before = {h: model_record(W.record(raw, h)) for h in R.ids}
+                now_us = from_iso(now.isoformat())
                 env.detects.clear(); env.reached.clear(); env.executed.clear(); env.messages.clear(); R.calls.clear()
                 recalled: list[Any] = []
                 orig_recall = type(memories).recall
@@ -715,7 +778,7 @@ def run_history(ctx: fw.Ctx, env: Env, D: dict[str, list[fw.Case]], spec: dict, 
                     return m
                 memories.recall = recall             # type: ignore[method-assign]
                 coro = env.processing.process_resource_event(
-                    lifecycle=env.lifecycles.all_at_once, indexers=env.indexers, registry=R.reg, settings=env.settings,
+                    lifecycle=getattr(env.lifecycles, lifecycle), indexers=env.indexers, registry=R.reg, settings=env.settings,
                     memories=memories, memobase=env.ephemera.Memo(), resource=env.resource, raw_event={'type': ev, 'object': raw},
                     event_queue=None, no_throttling=True)
                 t = loop.spawn(coro)
@@ -755,10 +818,47 @@ def run_history(ctx: fw.Ctx, env: Env, D: dict[str, list[fw.Case]], spec: dict, 
                 data = {'history': name, 'registry': decls, 'step': len(trace_data), 'epoch': epoch, 'event': ev, 'uid': uid,
                         'memories_before': before, 'memories_after': after, 'input': inp, 'observed': obs,
                         'calls': copy.deepcopy(R.calls)}
-                call = f'rs_step_body {R.cregs()} {cmems(before)} {cq.cjson(kbody)} {cin("tt", inp)}'
-                D['resume_step'].append(fw.Case(f'res_eqb rs_step_eqb ({call}) (Ok ({cmems(after)}, {cobs(obs)}))', data, diag=call))
-                labels.append(f'(LEv {cin(cq.cjson(uid), inp)})')
-                trace_obs.append(cobs(obs))
+                if lifecycle == 'all_at_once':     # Model/Resume.v abstracts the execution as "every awakened handler runs"
+                    call = f'rs_step_body {R.cregs()} {cmems(before)} {cq.cjson(kbody)} {cin("tt", inp)}'
+                    D['resume_step'].append(fw.Case(f'res_eqb rs_step_eqb ({call}) (Ok ({cmems(after)}, {cobs(obs)}))', data, diag=call))
+                    labels.append(f'(LEv {cin(cq.cjson(uid), inp)})')
+                    trace_obs.append(cobs(obs))
+                # ---- the composed model (Model/ResumeCycle.v: flags + the C02 pipeline on the concrete records, any lifecycle)
+                sel_ids = [decls[ix]['id'] for ix in selected]
+                ctx.count('cycle_lifecycle', lifecycle)
+                if len(set(sel_ids)) != len(sel_ids):
+                    ctx.count('cycle_case', 'skipped: two functions under one id selected (the pipeline model is per id)')
+                else:
+                    cause = env.reached[0] if env.reached else None
+                    nd = bool(cause is not None and cause.new is not None and cause.old != cause.new)
+                    retries_of = {h: (recs_before[h] or {}).get('retries') or 0 for h in R.ids}
+                    rows = [f"({cq.cstr(decls[ix]['id'])}, {cq.cZ(retries_of[decls[ix]['id']])}, {COUT_PG[dict(outs)[ix]]})" for ix in selected]
+                    cur_obj = W.objs[uid] if W.objs[uid] is not None else W.ghost.get(uid)
+                    recs_after = [model_record(W.record(cur_obj, h)) for h in R.ids]
+                    inv_pg = [(decls[c['ix']]['id'], retries_of[decls[c['ix']]['id']]) for c in R.calls]
+                    body_t = cq.clist(cq.cpair(cq.cstr(h), c_srec(m)) for h, m in recs_before.items() if m is not None)
+                    ci = (f'{{| ci_key := {cq.cjson(uid)}; ci_evt := {CEV[ev]}; ci_old_none := {cq.cbool(det["old_none"])}; '
+                          f'ci_diff_empty := {cq.cbool(det["diff_empty"])}; ci_deleting := {cq.cbool(view_h["deleting"])}; '
+                          f'ci_blocked := {cq.cbool(view_h["blocked"])}; ci_body := {body_t}; ci_gate := {cq.cbool(reached)}; '
+                          f'ci_match := {cq.clist(cq.cnat(x) for x in matching)}; ci_lc := {CLC[lifecycle]}; ci_now := {cq.cZ(now_us)}; '
+                          f'ci_nd := {cq.cbool(nd)}; ci_orc := pg_table_oracle {cq.clist(rows)} {COUT_PG["ok"]} |}}')
+                    names = cq.clist(cq.cstr(h) for h in R.ids)
+                    fho_step = bool(obs['done'] or obs['skip'])
+                    term = (f'let i := {ci} in rc_step_eqb {names} (rc_step py_eqb (rc_name_of {names}) {R.cregs()} {cmems(before)} i) '
+                            f'{cmems(after)} {cq.cbool(obs["initial0"])} {CR[obs["reason"]]} {cq.cbool(obs["initial"])} '
+                            f'{cq.clist(cq.cnat(x) for x in selected)} '
+                            f'{cq.clist(cq.cpair(cq.cstr(k), cq.cZ(n)) for k, n in inv_pg)} {cq.cbool(fho_step)} '
+                            f'{cq.cbool(obs["handled_after"])} {cq.clist(c_osrec(m) for m in recs_after)} i')
+                    diag = (f'let i := {ci} in let x := rc_step py_eqb (rc_name_of {names}) {R.cregs()} {cmems(before)} i in '
+                            f'(fst x, co_initial0 (snd x), co_reason (snd x), co_initial (snd x), map hd_ix (co_sel (snd x)), '
+                            f'r_invoked (co_result (snd x)), r_fho (co_result (snd x)), co_handled_after (snd x), '
+                            f'map (fun s => pg_find s (rc_next_body i (snd x))) {names})')
+                    D['resume_cycle'].append(fw.Case(term, {**data, 'lifecycle': lifecycle, 'now_us': now_us, 'records_before': recs_before,
+                                                            'records_after': recs_after, 'new_differs': nd}, diag=diag))
+                    purged = reached and any('is superseded by' in m for m in env.messages)
+                    ctx.count('cycle_case', 'supersession purge' if purged else 'closing' if fho_step else
+                              'open, records kept' if any(m is not None for m in recs_after) else 'nothing recorded')
+                    ctx.count('cycle_records_before', str(sum(1 for m in recs_before.values() if m is not None)))
                 trace_data.append({'event': ev, 'uid': uid, 'epoch': epoch, 'reason': obs['reason'], 'initial': obs['initial'],
                                    'reached': reached, 'match': matching, 'selected': selected, 'invoked': invoked})
                 ctx.count('step_reason', obs['reason'] + ('+initial' if obs['initial'] else ''))
@@ -820,7 +920,8 @@ def run_history(ctx: fw.Ctx, env: Env, D: dict[str, list[fw.Case]], spec: dict, 
                         firsts.setdefault((d['fn'], d['id']), ix)
                     for ix, d in enumerate(decls):
                         if d['kind'] in RESUME_KINDS and ix in matching and firsts[(d['fn'], d['id'])] == ix \
-                                and d['id'] not in R.ambiguous and ix not in [c['ix'] for c in R.calls] \
+                                and d['id'] not in R.ambiguous \
+                                and ix not in ([c['ix'] for c in R.calls] if lifecycle == 'all_at_once' else selected) \
                                 and all(p == 'none' for _, p in view_h['prog']):
                             ctx.fail('a pre-existing, handled-before object did not get a matching resume handler in its first '
                                      'handling cycle after the start', {**case, 'registration': ix}, observed=invoked,
@@ -830,7 +931,7 @@ def run_history(ctx: fw.Ctx, env: Env, D: dict[str, list[fw.Case]], spec: dict, 
     finally:
         vloop.close_loop(loop)
         env.world = None
-    if labels:
+    if labels and lifecycle == 'all_at_once':
         call = f'rs_trace_obs {R.cregs()} {cq.clist(labels)}'
         D['resume_trace'].append(fw.Case(f'rs_list_eqb rs_obs_eqb ({call}) {cq.clist(trace_obs)}',
                                          {'history': name, 'registry': decls, 'trace': trace_data}, diag=None))
@@ -884,7 +985,7 @@ def replay(ctx: fw.Ctx, body: dict) -> bool:
     """Re-run a function-level replay file: a recorded history (case.replay), or the deterministic tables / key sequences."""
     case = body.get('case') or {}
     ctx.matchers.update({'F1401': match_f1401})
-    D: dict[str, list[fw.Case]] = {'resume_step': [], 'resume_trace': []}
+    D: dict[str, list[fw.Case]] = {'resume_step': [], 'resume_trace': [], 'resume_cycle': []}
     with Env() as env:
         if isinstance(case, dict) and 'replay' in case:
             run_history(ctx, env, D, case['replay'], ctx.rng, str(case.get('history', 'replay')))
@@ -907,11 +1008,11 @@ def is_function_level_replay(body: dict) -> bool:
 
 def differential(ctx: fw.Ctx) -> None:
     ctx.matchers.update({'F1401': match_f1401})
-    ok, logtxt = fw.build_models(['Model/Resume.v'])
+    ok, logtxt = fw.build_models(['Model/Resume.v', 'Model/ResumeCycle.v'])
     if not ok:
         ctx.correspondence_break('model build', logtxt[-1500:])
         return
-    D: dict[str, list[fw.Case]] = {'resume_step': [], 'resume_trace': []}
+    D: dict[str, list[fw.Case]] = {'resume_step': [], 'resume_trace': [], 'resume_cycle': []}
     with Env() as env:
         D['resume_key'] = run_keys(ctx, env, ctx.scale(60, 600))
         D['resume_detect'] = run_detect_table(ctx, env)
@@ -920,3 +1021,4 @@ def differential(ctx: fw.Ctx) -> None:
         run_histories(ctx, env, ctx.scale(160, 1500), D, load_corpus())
     for name in ('resume_key', 'resume_detect', 'resume_decl', 'resume_select', 'resume_step', 'resume_trace'):
         ctx.differential(name, HEADER, D[name], shard=150 if name != 'resume_trace' else 40)
+    ctx.differential('resume_cycle', HEADER_RC, D['resume_cycle'], shard=120)
